@@ -72,3 +72,13 @@ TEXT = {
 # Properties not claimed, with the reason.
 NOT_APPLICABLE = {
 }
+
+# Additional C18 plugin jobs, one file per plugin family (checkcfg_extra_<name>.py), each defining
+# QUICK and THOROUGH lists of jobs built with J(...); kept apart so that they can be written and tried
+# independently.
+import glob as _glob, os as _os
+for _f in sorted(_glob.glob(_os.path.join(_os.path.dirname(_os.path.abspath(__file__)), "checkcfg_extra_*.py"))):
+    _ns = {"J": J}
+    exec(open(_f).read(), _ns)
+    PROPS[_ns.get("PROPERTY", "C18")]["quick"] += _ns.get("QUICK", [])
+    PROPS[_ns.get("PROPERTY", "C18")]["thorough"] += _ns.get("THOROUGH", [])
